@@ -7,6 +7,7 @@ import token as pytoken
 
 from vlib.core import AnalysisError, Report
 from vlib.guards import always_exits
+from vlib.match import FI, X, atoms, expand_use, nodes
 from vlib.srcindex import SourceIndex, attr_chain, const_str, unparse, walk_no_nested
 
 EXPLANATION = (
@@ -94,11 +95,20 @@ def default_definition(idx: SourceIndex) -> Defn:
 	init = m.func('TokenDefinition.__init__')
 	d = Defn()
 	class_consts = {k: const_str(v) for k, v in m.cls('TokenDefinition').class_attrs.items()}
+	env: dict = {}
 	for n in init.node.body:
-		if isinstance(n, ast.Assign) and isinstance(n.targets[0], ast.Attribute) and isinstance(n.targets[0].value, ast.Name) and n.targets[0].value.id == 'self':
-			name = n.targets[0].attr
+		tgt = n.targets[0] if isinstance(n, ast.Assign) and len(n.targets) == 1 else n.target if isinstance(n, ast.AnnAssign) and n.value is not None else None
+		if isinstance(tgt, ast.Name):
+			# a local of the table constructor: constant-folded like the fields
 			try:
-				d.fields[name] = _eval(n.value, {}, d)
+				env[tgt.id] = _eval(n.value, env, d)
+			except (ValueError, KeyError):
+				pass
+			continue
+		if isinstance(tgt, ast.Attribute) and isinstance(tgt.value, ast.Name) and tgt.value.id == 'self':
+			name = tgt.attr
+			try:
+				d.fields[name] = _eval(n.value, env, d)
 			except (ValueError, KeyError) as e:
 				if name in ('symbol', 'combined_symbols', 'analyze_order', 'quote', 'comment', 'white_space', 'number', 'identifier'):
 					raise AnalysisError(f'TokenDefinition.{name} is not statically evaluable: {e}')
@@ -110,12 +120,20 @@ def grammar_definition(idx: SourceIndex, base: Defn) -> Defn:
 	f = m.func('gram_tokenizer')
 	d = Defn()
 	d.fields = dict(base.fields)
+	env: dict = {}
 	for n in f.node.body:
-		if isinstance(n, ast.Assign) and isinstance(n.targets[0], ast.Attribute) and isinstance(n.targets[0].value, ast.Name) and n.targets[0].value.id == 'definition':
+		tgt = n.targets[0] if isinstance(n, ast.Assign) and len(n.targets) == 1 else n.target if isinstance(n, ast.AnnAssign) and n.value is not None else None
+		if isinstance(tgt, ast.Name):
 			try:
-				d.fields[n.targets[0].attr] = _eval(n.value, {}, d)
+				env[tgt.id] = _eval(n.value, env, d)
+			except (ValueError, KeyError):
+				pass
+			continue
+		if isinstance(tgt, ast.Attribute) and isinstance(tgt.value, ast.Name) and tgt.value.id == 'definition':
+			try:
+				d.fields[tgt.attr] = _eval(n.value, env, d)
 			except (ValueError, KeyError) as e:
-				raise AnalysisError(f'gram_tokenizer: definition.{n.targets[0].attr} is not statically evaluable: {e}')
+				raise AnalysisError(f'gram_tokenizer: definition.{tgt.attr} is not statically evaluable: {e}')
 	return d
 
 
@@ -137,49 +155,35 @@ def rule_bracket_layout(rep: Report, tz) -> None:
 	if 'to_nest' not in mutating:
 		r.note(f'Context methods that write state: {sorted(mutating)}')
 
-	def is_in_brackets(e: ast.AST) -> bool:
-		return isinstance(e, ast.Compare) and unparse(e.left) == 'context.enclosure' and len(e.ops) == 1 and isinstance(e.ops[0], (ast.Gt, ast.NotEq)) and unparse(e.comparators[0]) == '0'
+	fx = X(f)
+	cparam = f.params()[1] if len(f.params()) > 1 else 'context'
+
+	def outside_brackets(node: ast.AST) -> bool:
+		"""`<context>.enclosure > 0` is known to be false at node"""
+		for a, p_ in atoms(fx, node):
+			if isinstance(a, ast.Compare) and len(a.ops) == 1 and unparse(a.left) == f'{cparam}.enclosure' and unparse(a.comparators[0]) == '0':
+				if (isinstance(a.ops[0], ast.Gt) and not p_) or (isinstance(a.ops[0], (ast.Eq, ast.LtE)) and p_):
+					return True
+		return False
 
 	found = []
-
-	def effects_in(stmt: ast.stmt) -> list[ast.AST]:
-		out = []
-		for n in ast.walk(stmt):
-			if isinstance(n, (ast.Assign, ast.AugAssign)):
-				for t in (n.targets if isinstance(n, ast.Assign) else [n.target]):
-					if isinstance(t, ast.Attribute) and isinstance(t.value, ast.Name) and t.value.id == 'context':
-						out.append(n)
-			if isinstance(n, ast.Call) and isinstance(n.func, ast.Attribute) and isinstance(n.func.value, ast.Name) and n.func.value.id == 'context' and n.func.attr in mutating:
-				out.append(n)
-			if isinstance(n, ast.Return) and isinstance(n.value, ast.Tuple) and len(n.value.elts) == 2 and not (isinstance(n.value.elts[1], ast.List) and not n.value.elts[1].elts):
-				out.append(n)  # emits tokens
-		return out
-
-	def walk(stmts: list[ast.stmt], outside: bool) -> bool:
-		"""outside = known to be outside brackets; returns the state after the block"""
-		for s in stmts:
-			if isinstance(s, ast.If):
-				if is_in_brackets(s.test):
-					for e in effects_in(ast.Module(body=s.body, type_ignores=[])):
-						found.append((e, False, 'inside the in-brackets branch'))
-					walk(s.orelse, True)
-					if always_exits(s.body):
-						outside = True
-					continue
-				# test expression itself
-				walk(s.body, outside)
-				walk(s.orelse, outside)
-				continue
-			for e in effects_in(s):
-				found.append((e, outside, ''))
-		return outside
-
-	walk(f.node.body, False)
+	for n in ast.walk(fx):
+		hit = False
+		if isinstance(n, (ast.Assign, ast.AugAssign)):
+			for t in (n.targets if isinstance(n, ast.Assign) else [n.target]):
+				if isinstance(t, ast.Attribute) and isinstance(t.value, ast.Name) and t.value.id == cparam:
+					hit = True
+		if isinstance(n, ast.Call) and isinstance(n.func, ast.Attribute) and isinstance(n.func.value, ast.Name) and n.func.value.id == cparam and n.func.attr in mutating:
+			hit = True
+		if isinstance(n, ast.Return) and isinstance(n.value, ast.Tuple) and len(n.value.elts) == 2 and not (isinstance(n.value.elts[1], ast.List) and not n.value.elts[1].elts):
+			hit = True  # emits tokens
+		if hit:
+			found.append((n, outside_brackets(n)))
 	if len(found) < 4:
 		raise AnalysisError(f'C13: only {len(found)} indentation-state effects found in handle_white_space')
-	for e, ok, why in found:
+	for e, ok in found:
 		key = f'handle_white_space:{unparse(e)[:70]}'
-		r.check(ok, key, (TOKENIZER_PY, e.lineno), f'`{unparse(e)[:90]}` can execute while context.enclosure > 0 {why}: a line break inside brackets would then change the indentation state or emit layout tokens (layout inside brackets must be insignificant)', unparse(e)[:100])
+		r.check(ok, key, (TOKENIZER_PY, e.lineno), f'`{unparse(e)[:90]}` can execute while context.enclosure > 0: a line break inside brackets would then change the indentation state or emit layout tokens (layout inside brackets must be insignificant)', unparse(e)[:100])
 
 
 def rule_source_map(rep: Report, tk) -> None:
@@ -187,31 +191,24 @@ def rule_source_map(rep: Report, tk) -> None:
 	computations and must use the same primitive (backward search bounded by the offset itself)"""
 	r = rep.rule('C13/column-from-last-linebreak', 'Token.SourceMap.make computes begin and end column as offset - (position after the last line break before that offset): a backward search (rfind) whose upper bound is the offset', floor=2)
 	f = tk.func('Token.SourceMap.make')
-	assigns = {}
-	for n in walk_no_nested(f.node):
-		if isinstance(n, ast.Assign) and len(n.targets) == 1 and isinstance(n.targets[0], ast.Name):
-			assigns[n.targets[0].id] = n.value
-
-	def searches(e: ast.AST, depth: int = 0) -> list[ast.Call]:
-		"""string-search calls the value of e is derived from (through local names)"""
-		out = []
-		for x in ast.walk(e):
-			if isinstance(x, ast.Call) and isinstance(x.func, ast.Attribute) and x.func.attr in ('rfind', 'find', 'index', 'rindex'):
-				out.append(x)
-			if isinstance(x, ast.Name) and x.id in assigns and depth < 4 and x.id not in ('begin', 'end', 'source'):
-				out.extend(searches(assigns[x.id], depth + 1))
-		return out
-
-	for col, offset in (('begin_column', 'begin'), ('end_column', 'end')):
-		v = assigns.get(col)
-		if v is None or not (isinstance(v, ast.BinOp) and isinstance(v.op, ast.Sub) and unparse(v.left) == offset and isinstance(v.right, ast.Name)):
-			r.undecided(col, f.where, f'{col} is no longer `{offset} - <line start>`')
+	fx = FI(f)
+	ps_ = f.params()
+	if len(ps_) < 4:
+		raise AnalysisError('Token.SourceMap.make no longer takes (source, begin, end)')
+	ctor = [n.value for n in nodes(fx, ast.Return) if isinstance(n.value, ast.Call) and unparse(n.value.func) in ('cls', 'Token.SourceMap', 'SourceMap') and len(n.value.args) == 4]
+	if not ctor:
+		r.skip('begin_column', f.where, 'make no longer returns cls(begin_line, begin_column, end_line, end_column)')
+		r.skip('end_column', f.where, 'make no longer returns cls(begin_line, begin_column, end_line, end_column)')
+		return
+	for col, offset, v in (('begin_column', ps_[2], ctor[0].args[1]), ('end_column', ps_[3], ctor[0].args[3])):
+		if not (isinstance(v, ast.BinOp) and isinstance(v.op, ast.Sub) and unparse(v.left) == offset):
+			r.skip(col, f.where, f'{col} is no longer `{offset} - <line start>`')
 			continue
-		ss = searches(assigns.get(v.right.id, v.right))
+		ss = [x for x in ast.walk(v.right) if isinstance(x, ast.Call) and isinstance(x.func, ast.Attribute) and x.func.attr in ('rfind', 'find', 'index', 'rindex')]
 		own = [c for c in ss if len(c.args) == 3 and unparse(c.args[2]) == offset]
-		ok = bool(own) and all(c.func.attr in ('rfind', 'rindex') and const_str(c.args[0]) == '\n' for c in own) and all(c.func.attr in ('rfind', 'rindex') for c in ss if len(c.args) == 3 and unparse(c.args[2]) == offset)
-		fwd = [unparse(c) for c in ss if c.func.attr in ('find', 'index')]
-		r.check(ok and not (col == 'end_column' and fwd), col, (TOKEN_PY, f.node.lineno), f'{col} is derived from {[unparse(c) for c in ss]}: the line start of offset `{offset}` must be found by a backward search for the last line break before `{offset}` (rfind(\'\\n\', lo, {offset})); a forward search finds the first line break inside a multi-line token, so the end column of a triple-quoted string or a blank-line break is measured from the wrong line', unparse(assigns.get(v.right.id, v.right))[:120])
+		ok = bool(own) and all(c.func.attr in ('rfind', 'rindex') and const_str(c.args[0]) == '\n' for c in own)
+		fwd = sorted({unparse(c) for c in ss if c.func.attr in ('find', 'index')})
+		r.check(ok and not (col == 'end_column' and fwd), col, (TOKEN_PY, f.node.lineno), f'{col} is derived from {sorted({unparse(c) for c in ss})}: the line start of offset `{offset}` must be found by a backward search for the last line break before `{offset}` (rfind(\'\\n\', lo, {offset})); a forward search finds the first line break inside a multi-line token, so the end column of a triple-quoted string or a blank-line break is measured from the wrong line', unparse(v.right)[:120])
 
 
 def run(rep: Report, tier: str) -> None:
@@ -233,15 +230,34 @@ def run(rep: Report, tier: str) -> None:
 	ps = tz.func('Lexer.parse_symbol')
 	src = unparse(ps.node)
 	ra = rep.rule('C13/offset-arithmetic', 'parse_symbol derives the token type from table offsets exactly as modelled (Symbol.value << 4 + index, BeginCombine.value + index, lengths 3 then 2); Token.domain folds >> 4 with min(d, Max)', floor=4)
-	ra.check('base = TokenDomains.Symbol.value << 4' in src and 'offset = self._definition.symbol.index(value)' in src and 'TokenTypes(base + offset)' in src, 'single-symbol', ps.where, 'single symbols are no longer typed as TokenTypes((Symbol.value << 4) + symbol.index(ch))')
-	ra.check('index_of(self._definition.combined_symbols, value)' in src and 'TokenTypes(TokenTypes.BeginCombine.value + offset)' in src, 'combined-symbol', ps.where, 'combined symbols are no longer typed as TokenTypes(BeginCombine.value + index)')
-	lens = None
-	for n in walk_no_nested(ps.node):
-		if isinstance(n, ast.For) and unparse(n.iter) == 'range(2)' and 'end = begin + 1 + (2 - i)' in unparse(n):
-			lens = [3, 2]
-	ra.check(lens == [3, 2], 'lengths-tried', ps.where, 'parse_symbol no longer tries combined symbols of length 3 then 2')
+	tcalls = [c_ for c_ in walk_no_nested(ps.node) if isinstance(c_, ast.Call) and unparse(c_.func) == 'TokenTypes' and len(c_.args) == 1]
+	singles, combos = [], []
+	for c_ in tcalls:
+		e_ = expand_use(ps.node, c_.args[0])
+		terms = sorted(unparse(t) for t in _add_terms(e_))
+		(combos if 'BeginCombine' in unparse(e_) else singles).append((c_, terms))
+	if not singles:
+		ra.skip('single-symbol', ps.where, 'parse_symbol no longer builds TokenTypes(<offset expression>) for single symbols')
+	for c_, terms in singles:
+		ok = len(terms) == 2 and 'TokenDomains.Symbol.value << 4' in terms and any(t.startswith('self._definition.symbol.index(') for t in terms)
+		ra.check(ok, 'single-symbol', (TOKENIZER_PY, c_.lineno), f'single symbols must be typed TokenTypes((Symbol.value << 4) + symbol.index(ch)) — the table model of this check assumes it: terms {terms}', unparse(c_))
+	if not combos:
+		ra.skip('combined-symbol', ps.where, 'parse_symbol no longer builds TokenTypes(BeginCombine.value + ...)')
+	for c_, terms in combos:
+		ok = len(terms) == 2 and 'TokenTypes.BeginCombine.value' in terms and any(t.startswith('index_of(self._definition.combined_symbols,') for t in terms)
+		ra.check(ok, 'combined-symbol', (TOKENIZER_PY, c_.lineno), f'combined symbols must be typed TokenTypes(BeginCombine.value + index in combined_symbols): terms {terms}', unparse(c_))
+	lens = _lengths_tried(ps)
+	if lens is None:
+		ra.skip('lengths-tried', ps.where, 'the candidate lengths of combined symbols are not a foldable loop any more')
+	else:
+		ra.check(lens == [3, 2], 'lengths-tried', ps.where, f'parse_symbol must try combined symbols of length 3 then 2 (longest match first); it tries {lens}')
 	dm = tk.func('Token.domain')
-	ra.check('self.type.value >> 4 & 15' in unparse(dm.node) and 'min(d, TokenDomains.Max.value)' in unparse(dm.node), 'domain-fold', dm.where, 'Token.domain no longer computes min(type >> 4 & 0xf, Max)')
+	dsrc = unparse(FI(dm))
+	mins = [c_ for c_ in nodes(FI(dm), ast.Call) if unparse(c_.func) == 'min' and len(c_.args) == 2]
+	if not mins:
+		ra.skip('domain-fold', dm.where, 'Token.domain no longer folds with min(...)')
+	for c_ in mins:
+		ra.check({unparse(a) for a in c_.args} == {'self.type.value >> 4 & 15', 'TokenDomains.Max.value'}, 'domain-fold', dm.where, f'Token.domain must compute min(type >> 4 & 0xf, Max): `{unparse(c_)}`', unparse(c_))
 
 	base = default_definition(idx)
 	gram = grammar_definition(idx, base)
@@ -341,3 +357,47 @@ def run(rep: Report, tier: str) -> None:
 	extra = sorted(t for t in pytoken.EXACT_TOKEN_TYPES if len(t) > 1 and t not in base.fields['combined_symbols'])
 	only = sorted(t for t in base.fields['combined_symbols'] if t not in pytoken.EXACT_TOKEN_TYPES)
 	ro.note(f'CPython operators lexed as more than one token: {extra}; tranp-only combined symbols: {only} (informational; the supported lexical subset is not defined in the source)')
+
+
+def _add_terms(e: ast.AST) -> list[ast.AST]:
+	if isinstance(e, ast.BinOp) and isinstance(e.op, ast.Add):
+		return _add_terms(e.left) + _add_terms(e.right)
+	return [e]
+
+
+def _fold_int(e: ast.AST, env: dict[str, int]) -> int:
+	if isinstance(e, ast.Constant) and isinstance(e.value, int):
+		return e.value
+	if isinstance(e, ast.Name) and e.id in env:
+		return env[e.id]
+	if isinstance(e, ast.BinOp) and isinstance(e.op, (ast.Add, ast.Sub, ast.Mult)):
+		a, b = _fold_int(e.left, env), _fold_int(e.right, env)
+		return a + b if isinstance(e.op, ast.Add) else a - b if isinstance(e.op, ast.Sub) else a * b
+	raise ValueError(unparse(e))
+
+
+def _lengths_tried(ps) -> list[int] | None:
+	"""constant-fold the loop of parse_symbol that picks the candidate slice source[begin:end]: end - begin per iteration"""
+	params = ps.params()
+	begin = params[2] if len(params) > 2 else 'begin'
+	for lp in walk_no_nested(ps.node):
+		if not (isinstance(lp, ast.For) and isinstance(lp.target, ast.Name)):
+			continue
+		try:
+			if isinstance(lp.iter, ast.Call) and unparse(lp.iter.func) == 'range':
+				values = list(range(*[_fold_int(a, {}) for a in lp.iter.args]))
+			else:
+				values = list(ast.literal_eval(lp.iter))
+		except (ValueError, SyntaxError, TypeError):
+			continue
+		ends = [n for n in ast.walk(lp) if isinstance(n, ast.Assign) and isinstance(n.targets[0], ast.Name) and n.targets[0].id == 'end']
+		slices = [n for n in ast.walk(lp) if isinstance(n, ast.Subscript) and isinstance(n.slice, ast.Slice) and n.slice.lower is not None and n.slice.upper is not None and unparse(n.slice.lower) == begin]
+		if not slices:
+			continue
+		upper = slices[0].slice.upper
+		expr = ends[0].value if isinstance(upper, ast.Name) and ends and upper.id == 'end' else upper
+		try:
+			return [_fold_int(expr, {lp.target.id: v, begin: 0}) for v in values]
+		except ValueError:
+			return None
+	return None
